@@ -229,21 +229,21 @@ impl<'a> Acceptor<'a> for ast::Expr {
                 expr: _,
                 pattern: _,
                 regexp: _,
-            } => todo!(),
+            } => Dependencies::empty(),
             ast::Expr::Struct {
                 values: _,
                 fields: _,
-            } => todo!(),
-            ast::Expr::Named { expr: _, name: _ } => todo!(),
+            } => Dependencies::empty(),
+            ast::Expr::Named { expr: _, name: _ } => Dependencies::empty(),
             ast::Expr::Convert {
                 expr: _,
                 data_type: _,
                 charset: _,
                 target_before_value: _,
                 styles: _,
-            } => todo!(),
-            ast::Expr::Wildcard => todo!(),
-            ast::Expr::QualifiedWildcard(_) => todo!(),
+            } => Dependencies::empty(),
+            ast::Expr::Wildcard => Dependencies::empty(),
+            ast::Expr::QualifiedWildcard(_) => Dependencies::empty(),
             ast::Expr::Dictionary(_) => Dependencies::empty(),
             ast::Expr::OuterJoin(expr) => Dependencies::from([expr.as_ref()]),
             ast::Expr::Prior(expr) => Dependencies::from([expr.as_ref()]),
@@ -281,6 +281,10 @@ pub trait Visitor<'a, T: Clone> {
     fn like(&self, expr: T, pattern: T) -> T;
     fn ilike(&self, expr: T, pattern: T) -> T;
     fn is(&self, expr: T, value: Option<bool>) -> T;
+    /// An expression that has no translation (the default keeps panicking, as unsupported expressions used to)
+    fn not_supported(&self, expr: &'a ast::Expr) -> T {
+        panic!("{expr} is not supported")
+    }
 }
 
 // For the visitor to be more convenient, we create a few auxiliary objects
@@ -297,8 +301,8 @@ impl<'a, T: Clone, V: Visitor<'a, T>> visitor::Visitor<'a, ast::Expr, T> for V {
         match acceptor {
             ast::Expr::Identifier(ident) => self.identifier(ident),
             ast::Expr::CompoundIdentifier(idents) => self.compound_identifier(idents),
-            ast::Expr::JsonAccess { value: _, path: _ } => todo!(),
-            ast::Expr::CompositeAccess { expr: _, key: _ } => todo!(),
+            ast::Expr::JsonAccess { value: _, path: _ } => self.not_supported(acceptor),
+            ast::Expr::CompositeAccess { expr: _, key: _ } => self.not_supported(acceptor),
             ast::Expr::IsFalse(expr) => self.is(
                 self.cast(dependencies.get(expr).clone(), &ast::DataType::Boolean),
                 Some(false),
@@ -326,10 +330,10 @@ impl<'a, T: Clone, V: Visitor<'a, T>> visitor::Visitor<'a, ast::Expr, T> for V {
                 &ast::UnaryOperator::Not,
                 self.is(dependencies.get(expr).clone(), None),
             ),
-            ast::Expr::IsUnknown(_) => todo!(),
-            ast::Expr::IsNotUnknown(_) => todo!(),
-            ast::Expr::IsDistinctFrom(_, _) => todo!(),
-            ast::Expr::IsNotDistinctFrom(_, _) => todo!(),
+            ast::Expr::IsUnknown(_) => self.not_supported(acceptor),
+            ast::Expr::IsNotUnknown(_) => self.not_supported(acceptor),
+            ast::Expr::IsDistinctFrom(_, _) => self.not_supported(acceptor),
+            ast::Expr::IsNotDistinctFrom(_, _) => self.not_supported(acceptor),
             ast::Expr::InList {
                 expr,
                 list,
@@ -349,12 +353,12 @@ impl<'a, T: Clone, V: Visitor<'a, T>> visitor::Visitor<'a, ast::Expr, T> for V {
                 expr: _,
                 subquery: _,
                 negated: _,
-            } => todo!(),
+            } => self.not_supported(acceptor),
             ast::Expr::InUnnest {
                 expr: _,
                 array_expr: _,
                 negated: _,
-            } => todo!(),
+            } => self.not_supported(acceptor),
             ast::Expr::Between {
                 expr,
                 negated,
@@ -392,7 +396,7 @@ impl<'a, T: Clone, V: Visitor<'a, T>> visitor::Visitor<'a, ast::Expr, T> for V {
                 escape_char,
             } => {
                 if escape_char.is_some() {
-                    todo!()
+                    return self.not_supported(acceptor);
                 };
                 let x = self.like(
                     dependencies.get(expr).clone(),
@@ -411,7 +415,7 @@ impl<'a, T: Clone, V: Visitor<'a, T>> visitor::Visitor<'a, ast::Expr, T> for V {
                 escape_char,
             } => {
                 if escape_char.is_some() {
-                    todo!()
+                    return self.not_supported(acceptor);
                 };
                 let x = self.ilike(
                     dependencies.get(expr).clone(),
@@ -428,21 +432,17 @@ impl<'a, T: Clone, V: Visitor<'a, T>> visitor::Visitor<'a, ast::Expr, T> for V {
                 expr: _,
                 pattern: _,
                 escape_char: _,
-            } => todo!(),
+            } => self.not_supported(acceptor),
             ast::Expr::AnyOp {
                 left: _,
                 compare_op: _,
                 right: _,
-            } => {
-                todo!()
-            }
+            } => self.not_supported(acceptor),
             ast::Expr::AllOp {
                 left: _,
                 compare_op: _,
                 right: _,
-            } => {
-                todo!()
-            }
+            } => self.not_supported(acceptor),
             ast::Expr::UnaryOp { op, expr } => self.unary_op(op, dependencies.get(expr).clone()),
             ast::Expr::Cast {
                 expr,
@@ -453,7 +453,7 @@ impl<'a, T: Clone, V: Visitor<'a, T>> visitor::Visitor<'a, ast::Expr, T> for V {
             ast::Expr::AtTimeZone {
                 timestamp: _,
                 time_zone: _,
-            } => todo!(),
+            } => self.not_supported(acceptor),
             ast::Expr::Extract { field, expr } => {
                 self.extract(field, dependencies.get(expr).clone())
             }
@@ -486,8 +486,7 @@ impl<'a, T: Clone, V: Visitor<'a, T>> visitor::Visitor<'a, ast::Expr, T> for V {
                 let trim_what = match (trim_what, trim_characters) {
                     (None, None) => None,
                     (Some(x), None) => Some(x.as_ref()),
-                    (None, Some(_v)) => todo!(),
-                    _ => todo!(),
+                    _ => return self.not_supported(acceptor),
                 };
                 self.trim(
                     dependencies.get(expr).clone(),
@@ -500,18 +499,18 @@ impl<'a, T: Clone, V: Visitor<'a, T>> visitor::Visitor<'a, ast::Expr, T> for V {
                 overlay_what: _,
                 overlay_from: _,
                 overlay_for: _,
-            } => todo!(),
+            } => self.not_supported(acceptor),
             ast::Expr::Collate {
                 expr: _,
                 collation: _,
-            } => todo!(),
+            } => self.not_supported(acceptor),
             ast::Expr::Nested(expr) => dependencies.get(expr).clone(),
             ast::Expr::Value(value) => self.value(value),
             ast::Expr::TypedString {
                 data_type: _,
                 value: _,
-            } => todo!(),
-            ast::Expr::MapAccess { column: _, keys: _ } => todo!(),
+            } => self.not_supported(acceptor),
+            ast::Expr::MapAccess { column: _, keys: _ } => self.not_supported(acceptor),
             ast::Expr::Function(function) => self.function(function, {
                 let mut result = vec![];
                 let function_args = match &function.args {
@@ -566,47 +565,47 @@ impl<'a, T: Clone, V: Visitor<'a, T>> visitor::Visitor<'a, ast::Expr, T> for V {
             ast::Expr::Exists {
                 subquery: _,
                 negated: _,
-            } => todo!(),
-            ast::Expr::Subquery(_) => todo!(),
-            ast::Expr::GroupingSets(_) => todo!(),
-            ast::Expr::Cube(_) => todo!(),
-            ast::Expr::Rollup(_) => todo!(),
-            ast::Expr::Tuple(_) => todo!(),
-            ast::Expr::ArrayIndex { obj: _, indexes: _ } => todo!(),
-            ast::Expr::Array(_) => todo!(),
-            ast::Expr::Interval(_) => todo!(),
+            } => self.not_supported(acceptor),
+            ast::Expr::Subquery(_) => self.not_supported(acceptor),
+            ast::Expr::GroupingSets(_) => self.not_supported(acceptor),
+            ast::Expr::Cube(_) => self.not_supported(acceptor),
+            ast::Expr::Rollup(_) => self.not_supported(acceptor),
+            ast::Expr::Tuple(_) => self.not_supported(acceptor),
+            ast::Expr::ArrayIndex { obj: _, indexes: _ } => self.not_supported(acceptor),
+            ast::Expr::Array(_) => self.not_supported(acceptor),
+            ast::Expr::Interval(_) => self.not_supported(acceptor),
             ast::Expr::MatchAgainst {
                 columns: _,
                 match_value: _,
                 opt_search_modifier: _,
-            } => todo!(),
+            } => self.not_supported(acceptor),
             ast::Expr::IntroducedString {
                 introducer: _,
                 value: _,
-            } => todo!(),
+            } => self.not_supported(acceptor),
             ast::Expr::RLike {
                 negated: _,
                 expr: _,
                 pattern: _,
                 regexp: _,
-            } => todo!(),
+            } => self.not_supported(acceptor),
             ast::Expr::Struct {
                 values: _,
                 fields: _,
-            } => todo!(),
-            ast::Expr::Named { expr: _, name: _ } => todo!(),
+            } => self.not_supported(acceptor),
+            ast::Expr::Named { expr: _, name: _ } => self.not_supported(acceptor),
             ast::Expr::Convert {
                 expr: _,
                 data_type: _,
                 charset: _,
                 target_before_value: _,
                 styles: _,
-            } => todo!(),
-            ast::Expr::Wildcard => todo!(),
-            ast::Expr::QualifiedWildcard(_) => todo!(),
-            ast::Expr::Dictionary(_) => todo!(),
-            ast::Expr::OuterJoin(_) => todo!(),
-            ast::Expr::Prior(_) => todo!(),
+            } => self.not_supported(acceptor),
+            ast::Expr::Wildcard => self.not_supported(acceptor),
+            ast::Expr::QualifiedWildcard(_) => self.not_supported(acceptor),
+            ast::Expr::Dictionary(_) => self.not_supported(acceptor),
+            ast::Expr::OuterJoin(_) => self.not_supported(acceptor),
+            ast::Expr::Prior(_) => self.not_supported(acceptor),
         }
     }
 }
@@ -629,6 +628,10 @@ pub fn parse_expr(expr: &str) -> Result<ast::Expr> {
 pub struct DisplayVisitor;
 
 impl<'a> Visitor<'a, String> for DisplayVisitor {
+    fn not_supported(&self, expr: &'a ast::Expr) -> String {
+        format!("{expr}")
+    }
+
     fn qualified_wildcard(&self, idents: &'a Vec<ast::Ident>) -> String {
         format!("{}.*", idents.iter().join("."))
     }
@@ -805,6 +808,10 @@ impl From<&Vec<ast::Ident>> for Identifier {
 }
 
 impl<'a> Visitor<'a, Result<Expr>> for TryIntoExprVisitor<'a> {
+    fn not_supported(&self, expr: &'a ast::Expr) -> Result<Expr> {
+        Err(Error::other(format!("{expr} is not supported")))
+    }
+
     fn qualified_wildcard(&self, idents: &'a Vec<ast::Ident>) -> Result<Expr> {
         Err(Error::other(format!(
             "Unsupported qualified wildcard: {}.*",
